@@ -315,6 +315,38 @@ def _wrap_function(mb, kind, p, fname, with_ref_attr=False, nested=False):
     return out, oshape, odt
 
 
+def _rename_main_values(m):
+    """Rename the values produced by main-graph nodes (graph outputs excepted) and the main-graph initializers to val_0, val_1, ...
+    everywhere they are used, captured uses inside bodies included (all names of a built model are globally unique)."""
+    keep = {o.name for o in m.graph.output} | {i.name for i in m.graph.input}
+    mp = {}
+    for t in m.graph.initializer:
+        if t.name not in keep:
+            mp[t.name] = f"val_{len(mp)}"
+    for n in m.graph.node:
+        for o in n.output:
+            if o and o not in keep:
+                mp[o] = f"val_{len(mp)}"
+
+    def walk(g):
+        for t in g.initializer:
+            t.name = mp.get(t.name, t.name)
+        for vi in g.value_info:
+            vi.name = mp.get(vi.name, vi.name)
+        for n in g.node:
+            for k, nm in enumerate(n.input):
+                n.input[k] = mp.get(nm, nm)
+            for k, nm in enumerate(n.output):
+                n.output[k] = mp.get(nm, nm)
+            for a in n.attribute:
+                if a.type == onnx.AttributeProto.GRAPH:
+                    walk(a.g)
+                for sg in a.graphs:
+                    walk(sg)
+
+    walk(m.graph)
+
+
 # ----------------------------------------------------------------------------- templates
 def _choices(r):
     return {
@@ -326,7 +358,7 @@ def _choices(r):
 TEMPLATES = [
     "dft_axis", "dft_noaxis", "dft_len_inverse", "grid_bilinear", "grid_bicubic", "grid_nearest_plain",
     "gn_pergroup_static", "gn_eq_and_scale_input", "gn_symC", "gn_noshape", "plain_inits", "subgraph", "function", "mix",
-    "fn_only_imports",
+    "fn_only_imports", "subgraph_only_val_names",
 ]
 
 
@@ -396,6 +428,18 @@ def build(template, s, seed_rng, alias=False):
         wrapped(_wrap_function(mb, r.choice(["grid", "dft"]), {"mode": "bilinear", "align_corners": c["align"], "rank": 3, "axis": 1}, "f_adapt"),
                 "fn_adapted_only_import")
         mb.no_default_import = True
+    elif template == "subgraph_only_val_names":
+        # every operator that needs an adapter sits inside an If/Loop body; the main graph has only version-stable operators
+        # whose values carry the names exporters / onnx_ir hand out (val_0, val_1, ...): whatever names a conversion invents
+        # inside the bodies must not collide with them
+        top("plain", {}, "plain")
+        kinds = [("loop", "dft", {"rank": 3, "axis": r.choice([1, None])}), ("if", "gn", dict(gn, variant="static")),
+                 ("if", "grid", {"mode": "bilinear", "align_corners": c["align"]})]
+        r.shuffle(kinds)
+        for how, kind, p in kinds[: r.choice([1, 2, 3])]:
+            wrapped((_wrap_loop if how == "loop" else _wrap_if)(mb, kind, p), f"{how}_{kind}_only_in_body")
+        top("plain", {}, "plain")
+        mb.val_names = True
     elif template == "mix":
         top("dft", {"rank": 4, "axis": 2}, "dft_r4_axis")
         top("grid", {"mode": "bilinear", "align_corners": c["align"]}, "grid_bilinear")
@@ -406,6 +450,8 @@ def build(template, s, seed_rng, alias=False):
     for y, shape, dt, _label in outs:
         mb.output(y, dt, shape)
     m = mb.finish()
+    if getattr(mb, "val_names", False):
+        _rename_main_values(m)
     if alias:
         for n in m.graph.node:
             if n.domain == "" and mb.rng.random() < 0.5:
